@@ -11,16 +11,24 @@
 //            a NEGATIVE number makes the hint smaller than the stream
 //     errs   `-`, or one entry per shard: position at which the input stream yields `Err`
 //            (`x` = no error on that shard)
+//   [fault] optional 7th token: a transport fault injected through the in-memory shard network
+//            `cut:<src>:<dst>:<k>`  the first non-empty chunk that shard <src> sends to shard <dst>
+//            loses its last <k> bytes (1..15: never a whole 16-byte record), on all three helpers
 //   The k-th record of shard s carries the value s*1000+k (BA64), so every record is unique.
 //   Response: per shard `/`-separated: the reconstructed output vector (comma separated, `-` empty),
-//   `!` if all three helpers returned Err on that shard, `mixed` if helpers disagree.
-use std::{cell::RefCell, pin::Pin, sync::Arc, task::{Context as TaskContext, Poll}};
+//   `!` if all three helpers returned Err on that shard, `~` if on all three helpers the shard was
+//   still waiting when the observation window closed (it never returns: its peer never closes the
+//   channel), `mixed` if helpers disagree.
+//   Every shard's call runs under its own time limit, so one shard's failure and its peers' waiting
+//   are observed separately: 3 s when the request injects a failure, 15 s otherwise.
+use std::{cell::RefCell, collections::HashSet, pin::Pin, sync::{Arc, Mutex}, task::{Context as TaskContext, Poll}};
 
 use futures::{Stream, stream, stream::StreamExt};
 
 use super::proto::*;
 use crate::{
     ff::{U128Conversions, boolean_array::BA64},
+    helpers::in_memory_config::{DynStreamInterceptor, InspectContext},
     protocol::context::{ShardedContext, reshard_iter, reshard_stream, reshard_try_stream},
     secret_sharing::replicated::semi_honest::AdditiveShare as Replicated,
     sharding::{ShardConfiguration, ShardIndex},
@@ -64,14 +72,41 @@ fn parse_lists(s: &str) -> Vec<Vec<u32>> {
     s.split('/').map(|l| parse_nat_list::<u32>(l)).collect()
 }
 
-async fn run_n<const N: usize>(variant: String, dests: Vec<Vec<u32>>, hints: Vec<i64>, errs: Vec<Option<usize>>) -> String {
+/// `cut:<src>:<dst>:<k>`
+#[derive(Clone, Copy)]
+pub struct Cut {
+    src: u32,
+    dst: u32,
+    k: usize,
+}
+
+fn cutter(cut: Cut) -> DynStreamInterceptor {
+    let done: Mutex<HashSet<String>> = Mutex::new(HashSet::new());
+    Arc::new(move |ctx: &InspectContext, data: &mut Vec<u8>| {
+        if let InspectContext::ShardMessage { helper, source, dest, .. } = ctx {
+            if u32::from(*source) == cut.src && u32::from(*dest) == cut.dst && data.len() > cut.k {
+                if done.lock().unwrap().insert(format!("{helper:?}")) {
+                    data.truncate(data.len() - cut.k);
+                }
+            }
+        }
+    })
+}
+
+async fn run_n<const N: usize>(variant: String, dests: Vec<Vec<u32>>, hints: Vec<i64>, errs: Vec<Option<usize>>, cut: Option<Cut>) -> String {
     let input: Vec<BA64> = dests
         .iter()
         .enumerate()
         .flat_map(|(s, l)| (0..l.len()).map(move |k| BA64::truncate_from((s * 1000 + k) as u128)))
         .collect();
     SIZES.with(|s| *s.borrow_mut() = dests.iter().map(Vec::len).collect());
-    let world: TestWorld<WithShards<N, BySizes>> = TestWorld::with_shards(TestWorldConfig::default());
+    let faulty = cut.is_some() || errs.iter().any(Option::is_some) || hints.iter().any(|h| *h < 0);
+    let window = std::time::Duration::from_secs(if faulty { 3 } else { 15 });
+    let mut config = TestWorldConfig::default().with_timeout_secs(60);
+    if let Some(cut) = cut {
+        config.stream_interceptor = cutter(cut);
+    }
+    let world: TestWorld<WithShards<N, BySizes>> = TestWorld::with_shards(config);
     let dests = Arc::new(dests);
     let hints = Arc::new(hints);
     let errs = Arc::new(errs);
@@ -86,7 +121,7 @@ async fn run_n<const N: usize>(variant: String, dests: Vec<Vec<u32>>, hints: Vec
                 let picker = move |c: crate::protocol::context::ShardedSemiHonestContext<'_>, rid: crate::protocol::RecordId, _: &Replicated<BA64>| {
                     ShardIndex::from(table[usize::from(c.shard_id())][usize::from(rid)])
                 };
-                let res = match variant.as_str() {
+                let res = tokio::time::timeout(window, async move { match variant.as_str() {
                     "iter" => reshard_iter(ctx, shard_input, picker).await,
                     "stream" => reshard_stream(ctx, stream::iter(shard_input), picker).await,
                     "try" => {
@@ -100,8 +135,11 @@ async fn run_n<const N: usize>(variant: String, dests: Vec<Vec<u32>>, hints: Vec
                         reshard_try_stream(ctx, Hinted { inner: Box::pin(stream::iter(items)), hint }, picker).await
                     }
                     v => panic!("harness: unknown variant {v}"),
-                };
-                res.map_err(|e| format!("{e:?}"))
+                } }).await;
+                match res {
+                    Ok(r) => r.map_err(|e| format!("{e:?}")),
+                    Err(_) => Err("~".to_string()),
+                }
             }
         })
         .await;
@@ -117,7 +155,8 @@ async fn run_n<const N: usize>(variant: String, dests: Vec<Vec<u32>>, hints: Vec
             let vals: Vec<u128> = [a, b, c].reconstruct().into_iter().map(|v: BA64| v.as_u128()).collect();
             out.push(nat_list(&vals));
         } else if oks == 0 {
-            out.push("!".into());
+            let waiting = shard.iter().filter(|x| matches!(x, Err(e) if e == "~")).count();
+            out.push(match waiting { 0 => "!", 3 => "~", _ => "mixed" }.into());
         } else {
             out.push("mixed".into());
         }
@@ -134,24 +173,43 @@ pub fn exec(req: &str) -> String {
     assert_eq!(dests.len(), n);
     let hints: Vec<i64> = if t[4] == "-" { vec![] } else { t[4].split(',').map(|x| x.parse().unwrap()).collect() };
     let errs: Vec<Option<usize>> = if t[5] == "-" { vec![] } else { t[5].split(',').map(|x| x.parse().ok()).collect() };
-    // TestWorld distributes the input on the thread that first polls the future: run the whole
-    // request on a runtime driven from this thread.
-    let rt = tokio::runtime::Builder::new_multi_thread().worker_threads(3).enable_all().build().unwrap();
-    let r = rt.block_on(async move {
-        tokio::time::timeout(std::time::Duration::from_secs(20), async move {
-            match n {
-                1 => run_n::<1>(variant, dests, hints, errs).await,
-                2 => run_n::<2>(variant, dests, hints, errs).await,
-                3 => run_n::<3>(variant, dests, hints, errs).await,
-                4 => run_n::<4>(variant, dests, hints, errs).await,
-                5 => run_n::<5>(variant, dests, hints, errs).await,
-                _ => panic!("harness: unsupported shard count {n}"),
-            }
-        })
-        .await
+    let cut: Option<Cut> = t.get(6).map(|c| {
+        let p: Vec<&str> = c.split(':').collect();
+        assert!(p.len() == 4 && p[0] == "cut", "harness: bad fault {c}");
+        Cut { src: p[1].parse().unwrap(), dst: p[2].parse().unwrap(), k: p[3].parse().unwrap() }
     });
-    rt.shutdown_background();
-    r.unwrap_or_else(|_| "timeout".into())
+    // TestWorld distributes the input on the thread that first polls the future: run the whole
+    // request on a runtime driven from ONE thread. That thread is a fresh one, so that a resharding
+    // that spins without ever yielding (it cannot be timed out from inside) is reported as `timeout`
+    // instead of blocking the suite; the spinning thread is abandoned.
+    let (tx, rx) = std::sync::mpsc::channel();
+    let worker = std::thread::spawn(move || {
+        let rt = tokio::runtime::Builder::new_multi_thread().worker_threads(3).enable_all().build().unwrap();
+        let r = rt.block_on(async move {
+            tokio::time::timeout(std::time::Duration::from_secs(40), async move {
+                match n {
+                    1 => run_n::<1>(variant, dests, hints, errs, cut).await,
+                    2 => run_n::<2>(variant, dests, hints, errs, cut).await,
+                    3 => run_n::<3>(variant, dests, hints, errs, cut).await,
+                    4 => run_n::<4>(variant, dests, hints, errs, cut).await,
+                    5 => run_n::<5>(variant, dests, hints, errs, cut).await,
+                    _ => panic!("harness: unsupported shard count {n}"),
+                }
+            })
+            .await
+        });
+        rt.shutdown_background();
+        let _ = tx.send(r.unwrap_or_else(|_| "timeout".into()));
+    });
+    match rx.recv_timeout(std::time::Duration::from_secs(60)) {
+        Ok(r) => r,
+        Err(std::sync::mpsc::RecvTimeoutError::Timeout) => "timeout".into(),
+        // the worker panicked: hand the panic to `run_suite`
+        Err(std::sync::mpsc::RecvTimeoutError::Disconnected) => match worker.join() {
+            Err(payload) => std::panic::resume_unwind(payload),
+            Ok(()) => "timeout".into(),
+        },
+    }
 }
 
 fn show_lists(d: &[Vec<u32>]) -> String {
@@ -224,6 +282,69 @@ pub fn generate(rng: &mut Rng, thorough: bool) -> Vec<String> {
             let errs = (0..n).map(|s| rng.usize_below(sizes[s] + 1).to_string()).collect::<Vec<_>>().join(",");
             v.push(format!("c19.reshard try {n} {} - {errs}", show_lists(&d)));
         }
+    }
+    // ---- failure on exactly ONE shard (the others' streams are fine): an `Err` item before the first
+    // record, in the middle, before the last record, after the last record (all records already sent)
+    let singles: &[usize] = if thorough { &[1, 2, 2, 3, 3, 4, 5, 5] } else { &[1, 2, 3, 5] };
+    for (ni, &n) in singles.iter().enumerate() {
+        for (pi, posk) in ["first", "middle", "last", "after"].iter().enumerate() {
+            let sizes: Vec<usize> = (0..n).map(|_| 2 + rng.usize_below(9)).collect();
+            let picker = ["rand", "rr", "stay", "leave", "val", "one"][(ni + pi) % 6];
+            let target = rng.below(n as u64) as u32;
+            let d = gen_dests(rng, n, &sizes, picker, target);
+            let f = match pi { 0 => 0, 1 => n - 1, _ => rng.usize_below(n) };
+            let pos = match *posk { "first" => 0, "middle" => sizes[f] / 2, "last" => sizes[f] - 1, _ => sizes[f] };
+            let errs = (0..n).map(|s| if s == f { pos.to_string() } else { "x".to_string() }).collect::<Vec<_>>().join(",");
+            v.push(format!("c19.reshard try {n} {} - {errs}", show_lists(&d)));
+        }
+    }
+    // ---- size hint: larger than the stream by exactly 1 on ONE shard only (fine); smaller by 1 (a stream
+    // LONGER than its hint) on one shard only and on all shards, with selections that never put more than
+    // `hint` records on a single peer channel (all-stay, round robin) as well as all-to-one
+    for n in 1..=5usize {
+        for picker in ["rand", "stay"] {
+            let sizes: Vec<usize> = (0..n).map(|_| rng.usize_below(7)).collect();
+            let d = gen_dests(rng, n, &sizes, picker, 0);
+            let f = rng.usize_below(n);
+            let hints = (0..n).map(|s| if s == f { "1" } else { "0" }).collect::<Vec<_>>().join(",");
+            v.push(format!("c19.reshard try {n} {} {hints} -", show_lists(&d)));
+        }
+    }
+    for (i, picker) in ["stay", "rr", "one", "leave", "rand", "val"].iter().enumerate() {
+        if !thorough && i >= 4 {
+            break;
+        }
+        let n = 2 + i % 3;
+        let sizes: Vec<usize> = (0..n).map(|_| 1 + rng.usize_below(6)).collect();
+        let d = gen_dests(rng, n, &sizes, picker, (i % n) as u32);
+        let f = i % n;
+        let one = (0..n).map(|s| if s == f { "-1" } else { "0" }).collect::<Vec<_>>().join(",");
+        v.push(format!("c19.reshard try {n} {} {one} -", show_lists(&d)));
+        let all = vec!["-1"; n].join(",");
+        v.push(format!("c19.reshard try {n} {} {all} -", show_lists(&d)));
+    }
+    // witnesses of the repaired defect (a channel closed by its record count): the first `hint` items of a
+    // failing stream all go to ONE peer, which must not take them for the complete set - a stream longer than
+    // its hint (the dropped record is routed to the same peer / to another one), an `Err` item right after
+    // `hint` records, three shards with a bystander
+    v.push("c19.reshard try 2 1,1,1,1/0,0,0 0,-1 -".to_string());
+    v.push("c19.reshard try 2 1,1/0,0,1 0,-1 -".to_string());
+    v.push("c19.reshard try 2 1,1,1/0,0 - 3,x".to_string());
+    v.push("c19.reshard try 3 1,1/2,2,2/0 -1,0,0 -".to_string());
+    v.push("c19.reshard try 3 2,2,2,0/0/1,1 1,0,-1 -".to_string());
+    // ---- transport faults through the in-memory shard network: the first chunk from <src> to <dst> loses
+    // 1..15 bytes (never a whole record)
+    let cuts = if thorough { 24 } else { 6 };
+    for i in 0..cuts {
+        let n = 2 + i % 4;
+        let sizes: Vec<usize> = (0..n).map(|_| 2 + rng.usize_below(8)).collect();
+        let d = gen_dests(rng, n, &sizes, ["rr", "rand", "leave"][i % 3], 0);
+        // a pair (src, dst) with at least one record routed src -> dst
+        let src = rng.usize_below(n);
+        let Some(dst) = d[src].iter().map(|x| *x as usize).find(|x| *x != src) else { continue };
+        let k = [1usize, 8, 15, 3][i % 4];
+        let variant = variants[i % 3];
+        v.push(format!("c19.reshard {variant} {n} {} - - cut:{src}:{dst}:{k}", show_lists(&d)));
     }
     v
 }
